@@ -81,7 +81,7 @@ PROPS = {
         "rule": "case = one sorter call judged against the set-based reference (validity, error kind and witness, reachable set, order, bindings, identity) plus a second call with the rules shuffled; exhaustive stage: every adjacency matrix incl. self-loops over named single-target rules a..d with build-all and every goal, and over two-target rules where each edge uses the first, the second or both targets (all bindings up to 3 rules, two random bindings per matrix at 4); random stage: graphs up to 40 rules with duplicates, cycles and self-dependence, distinct by canonical (named adjacency, goal); non-trivial when there are at least 2 rules",
         "floor": {"quick": 100000, "thorough": 1000000},
         "exhaustive_note": "all directed graphs (self-loops included) on <= 4 named single-target rules x {build-all, every goal}; thorough adds all graphs on 5 rules",
-        "assumptions": ["rule target/source lists are given in the parser's canonical (sorted) order", "the reference in harness/drivers/sortd.rs is the specification"],
+        "assumptions": ["rule target/source lists have no repeated entries (the parser merges them); they are given sorted, reversed or shuffled, since the parser's canonical order (bundle depth-first) is not always string order", "the reference in harness/drivers/sortd.rs is the specification"],
     },
     "C20": {
         "level": "exploration",
